@@ -23,7 +23,9 @@ def run(tier, seed):
         # quick: every other pair of the quick universe, rotated by the seed (thorough runs a larger universe in full)
         res, n = mc.generate("quick", mc.QUICK, scen, commit_every=5, scale_every=60, keep=lambda i: i % 2 == seed % 2)
     else:
-        res, n = mc.generate("thorough", mc.THOROUGH, scen, commit_every=4, scale_every=50)
+        # ~10^6 pairs in the thorough universe: a third of them per run, rotated by the seed (measured: the full
+        # million takes about an hour of wall time on a loaded 16-core machine)
+        res, n = mc.generate("thorough", mc.THOROUGH, scen, commit_every=4, scale_every=50, keep=lambda i: i % 3 == seed % 3)
     out = vlib.replay("merge", scen, timeout=120)
     vlib.absorb_replay(v, out, "merge", scen, crash_sig=lambda sc, t: "merge/crash")
     # tables without a primary key: every pair (and a family of triples) of row sets over a two-row base
